@@ -4,7 +4,7 @@
    src/python.rs + python/pickle_fuzzer/fuzzer.py.
 
    CLI options record o:
-     protocol (-1 = not given), seed (-1 = not given), min, max,
+     protocol (-1 = not given), seed (-1 = not given, -2 = too large for TLC: see seedl), seedl (16-bit limbs), min, max,
      muts (sequence of mutator names, possibly "all"), rate1000 (rate * 1000),
      unsafe, ext, buf (0/1)
    Library configuration record:
@@ -16,13 +16,16 @@ AllMutators(unsafe) ==
     <<"bitflip", "boundary", "offbyone", "stringlen", "character", "typeconfusion">>
     \o (IF unsafe = 1 THEN <<"memoindex">> ELSE <<>>)
 
+(* seeds are u64: they travel as four little-endian 16-bit limbs; 65536^i = 4 (mod 6) for i >= 1 *)
+SeedMod6(l) == (l[1] + 4 * (l[2] + l[3] + l[4])) % 6
+
 Clamp1000(r) == IF r < 0 THEN 0 ELSE IF r > 1000 THEN 1000 ELSE r
 
 CliConfig(o) ==
     LET muts == IF \E j \in 1..Len(o.muts) : o.muts[j] = "all" THEN AllMutators(o.unsafe) ELSE o.muts
         withM == muts # <<>>
-    IN [P |-> IF o.protocol >= 0 THEN o.protocol ELSE o.seed % 6,
-        seed |-> o.seed,
+    IN [P |-> IF o.protocol >= 0 THEN o.protocol ELSE SeedMod6(o.seedl),
+        seed |-> o.seed, seedl |-> o.seedl,
         min |-> o.min, max |-> o.max,
         muts |-> muts,
         \* rate and the unsafe flag are applied together with the mutator list only
